@@ -108,8 +108,10 @@ Outcomes ==
     [] op = "scmp" -> IF Under(2) THEN {Fault("stack underflow")} ELSE PopPush(2, <<StrOK(Top(stk, 1)), StrOK(Top(stk, 2))>>, <<T("bool")>>, FALSE)
     [] op \in {"jnm", "jm"} ->
          IF Under(1) THEN {Fault("stack underflow")}
-         ELSE IF Top(stk, 1).t \notin {"bool", "i64"} THEN {Fault("jump condition has representation " \o Top(stk, 1).t)}
          ELSE IF ~JumpOK(a) THEN {Fault("jump outside the program")}
+         \* the type switch of Jnm/Jm has cases for bool and int64 only: any other representation (the Go int that
+         \* len() pushes, a float, a string) takes neither - the jump is not taken and nothing is reported
+         ELSE IF Top(stk, 1).t \notin {"bool", "i64"} THEN {Run(pc + 1, Drop(stk, 1))}
          ELSE {Run(pc + 1, Drop(stk, 1)), Run(a, Drop(stk, 1))}
     [] op = "jmp" -> IF ~JumpOK(a) THEN {Fault("jump outside the program")} ELSE {Run(a, stk)}
     [] op \in {"inc", "dec"} ->
